@@ -481,6 +481,11 @@ def op_create(w, op, mods):
                 merged.update(hdr or {})
                 hdr = merged
                 run.fault("header_dict_read_from_an_earlier_file")
+    if op.get("hdr_big") and form == "sfile":
+        # a processing history kept in the header: more than a megabyte of header text
+        hdr = dict(hdr or {})
+        hdr["history"] = ["calibrated frame %06d with flat %06d" % (i, i * 7) for i in range(int(op["hdr_big"]))]
+        run.fault("header_text_longer_than_a_megabyte")
     al = op.get("hdr_align")
     if al and form == "sfile":
         # find the pad length that puts the END line where it is wanted: write once with a short pad to a side file,
@@ -1576,6 +1581,109 @@ def op_hread_bad(w, op, mods):
                      % (rows, n, len(got) if hasattr(got, "__len__") else -1))
 
 
+_SPARSE_DT = np.dtype([("id", "<i8"), ("x", "<f8"), ("name", "S8")])
+
+
+def op_sparse(w, op, mods):
+    """C02: selections from a raw binary table of more than 2 GiB.  The file is made sparse by the simulator (known rows
+    at known places, holes elsewhere), so the model is exact without reading it: a named row is its known value or
+    all zeros."""
+    run = w.run
+    if w.prop != "C02":
+        raise Skip("C02 only")
+    dt = _SPARSE_DT
+    n = int(op["n"])
+    path = w.path(op["p"])
+    g = np.random.Generator(np.random.PCG64(op["seed"]))
+    known = {}
+    try:
+        with open(path, "wb") as fh:
+            for i in op["known"]:
+                if not (0 <= i < n):
+                    continue
+                row = np.zeros(1, dtype=dt)
+                row["id"], row["x"], row["name"] = i + 1, float(g.normal()), ("r%d" % (i % 9999999)).encode()
+                known[i] = row[0]
+                fh.seek(i * dt.itemsize)
+                fh.write(row.tobytes())
+            fh.truncate(n * dt.itemsize)
+        if os.stat(path).st_blocks * 512 > 64 * 1024 * 1024:
+            raise OSError("the scratch file system does not store holes sparsely")
+    except OSError as e:
+        try:
+            os.unlink(path)
+        except OSError:
+            pass
+        raise Skip("no sparse file here: %r" % (e,))
+    run.fault("binary_table_larger_than_2_GiB")
+    feats = {"form": "raw", "text": False, "big": True}
+    rf = None
+    try:
+        try:
+            rf = mods["recfile"].Recfile(w.epath(op["p"]), dtype=dt, nrows=n)
+        except Exception as e:
+            run.event(op.get("c", 0), "sparse", op["p"], "error(%s)" % type(e).__name__)
+            run.fail("rec.select.raises", feats, "Recfile(%s, dtype, nrows=%d) (%.2f GiB) raised %r" % (op["p"], n, n * 24 / 2.0 ** 30, e))
+            return
+        for sel in op["sels"]:
+            rows = [i for i in sel["rows"] if 0 <= i < n]
+            if not rows:
+                continue
+            cols, style = sel.get("cols"), sel.get("style", "read_kw")
+            exp = np.zeros(len(rows), dtype=dt)
+            for j, i in enumerate(rows):
+                if i in known:
+                    exp[j] = known[i]
+            what = "rows=%r cols=%r style=%s" % (rows, cols, style)
+            try:
+                if style == "slice1":
+                    # one row at a time by bracket slices (the slice reader)
+                    got = np.concatenate([rf[i:i + 1] for i in rows])
+                    if cols is not None:
+                        got = got[cols] if isinstance(cols, str) else got[list(cols)]
+                elif style == "getitem_rows":
+                    got = rf[np.array(rows, dtype="i8")]
+                    if cols is not None:
+                        got = got[cols] if isinstance(cols, str) else got[list(cols)]
+                elif style == "cols_then_rows" and cols is not None:
+                    got = rf[cols][np.array(rows, dtype="i8")]
+                else:
+                    got = rf.read(rows=rows, columns=cols) if cols is not None else rf.read(rows=rows)
+            except Exception as e:
+                run.event(op.get("c", 0), "sparse_read", op["p"], "error(%s)" % type(e).__name__, what)
+                run.fail("rec.select.raises", feats, "%s on a %d-row binary table (%.2f GiB) raised %r" % (what, n, n * 24 / 2.0 ** 30, e))
+                return
+            run.checks += 1
+            if cols is None:
+                e2 = exp
+            elif isinstance(cols, str):
+                e2 = exp[cols]
+            elif style in ("slice1", "getitem_rows"):
+                e2 = exp[list(cols)]            # (the columns were picked from esutil's rows by numpy, in the order asked for)
+            else:
+                e2 = exp[[c for c in dt.names if c in cols]]        # esutil's column list: file order
+            g2 = np.asarray(got)
+            run.event(op.get("c", 0), "sparse_read", op["p"], "ok", what + ":" + adigest(g2))
+            same = g2.shape == e2.shape and ((g2.dtype.names is None and e2.dtype.names is None and np.array_equal(g2, e2))
+                                             or (g2.dtype.names is not None and e2.dtype.names is not None
+                                                 and list(g2.dtype.names) == list(e2.dtype.names)
+                                                 and all(np.array_equal(g2[nm], e2[nm]) for nm in g2.dtype.names)))
+            if not same:
+                run.fail("rec.select.value", feats, "%s on a %d-row binary table (%.2f GiB): got %r, the rows written there are %r"
+                         % (what, n, n * 24 / 2.0 ** 30, g2[:6], e2[:6]))
+                return
+    finally:
+        if rf is not None:
+            try:
+                rf.close()
+            except Exception:
+                pass
+        try:
+            os.unlink(path)
+        except OSError:
+            pass
+
+
 def op_observe(w, op, mods):
     """harmless looks at an open object -- repr, str, len, the row count, the dtype, the mode, the header copy --
     between the operations that matter: looking must not change anything, and a row count that is reported must be
@@ -1651,6 +1759,6 @@ def op_chdir(w, op, mods):
     run.event(op.get("c", 0), "chdir", "elsewhere" if w.elsewhere else "back", "ok")
 
 
-OPS = {"chdir": op_chdir, "observe": op_observe, "stale": op_stale, "create": op_create, "read": op_read, "header": op_header, "open_w": op_open_w,
+OPS = {"chdir": op_chdir, "observe": op_observe, "sparse": op_sparse, "stale": op_stale, "create": op_create, "read": op_read, "header": op_header, "open_w": op_open_w,
        "write": op_write, "close": op_close, "append": op_append, "open_r": op_open_r,
        "reopen_obj": op_reopen_obj, "hread": op_hread, "hread_bad": op_hread_bad, "write_ro": op_write_ro}
